@@ -141,7 +141,9 @@ SUITES = {
     },
     "C16": {
         "quick": [("km-serde", ["sd_ser_map__s8_4one", "sd_ser_map__s8_8g4", "sd_ser_map__u0", "sd_ser_map__s8_e", "sd_ser_map__u8_3t", "sd_ser_set__s8_8g4",
-                                "sd_de_map__n0", "sd_de_map__n2", "sd_de_set_in_place__s8_4a", "sd_de_set_in_place__s8m0_4a", "sd_de_set_in_place__u0"])],
+                                "sd_de_map__n0", "sd_de_map__n2", "sd_de_set_in_place__s8_4a", "sd_de_set_in_place__s8m0_4a", "sd_de_set_in_place__u0"]),
+                  # deserialize_in_place = clear + reserve + inserts: "replaces the previous contents entirely" rests on clear()
+                  ("km", ["se_clear__s8m0_4a", "se_clear__s8_8g4", "st_clear__s8m0_4a"])],
         "thorough": [("km-serde", ["sd_*"])],
     },
     "C17": {
